@@ -307,32 +307,16 @@ func gElect(c *Check) {
 				if okc && len(vals) == 2 && vals[0] == min(msgVoteResp, msgPreVoteResp) && vals[1] == max(msgVoteResp, msgPreVoteResp) {
 					// the phi picks MsgPreVoteResp exactly when state == StatePreCandidate
 					ph := phi.V.(*ssa.Phi)
-					okSel := true
-					for i, e := range ph.Edges {
+					okSel := false
+					sel := fi.phiBF(ph, 0, func(e ssa.Value) *BF {
 						cv, _ := p.PossibleConsts(e, 1)
 						if len(cv) != 1 {
-							okSel = false
-							continue
+							return atomBF(fi.Sym(e), true)
 						}
-						pred := ph.Block().Preds[i]
-						ef := fi.EdgeFacts(pred.Index)
-						isPre := false
-						known := false
-						for _, x := range ef {
-							for _, at := range atomsOf(fi.Sym(x.Cond), x.Pos) {
-								if (at.K == AEq || at.K == ANe) && len(at.L.T) == 1 {
-									for k, s := range at.L.S {
-										if s.K == KField && s.Fld == stateF && at.L.T[k]*(-at.L.K) == statePre {
-											known = true
-											isPre = at.K == AEq
-										}
-									}
-								}
-							}
-						}
-						if !known || isPre != (cv[0] == msgPreVoteResp) {
-							okSel = false
-						}
+						return bfConst(cv[0] == msgPreVoteResp)
+					})
+					if sel != nil {
+						okSel, _ = bfEquiv(sel, bfCmp(FieldOf(r, stateF), "==", constSym(statePre)))
 					}
 					okArm = okSel
 					detail = fmt.Sprintf("myVoteRespType = %s selected by r.state", phi)
